@@ -1,0 +1,55 @@
+//go:build verif
+// +build verif
+
+package bal_slb
+
+import (
+	"github.com/bfenetworks/bfe/bfe_balance/backend"
+)
+
+// Hooks for the out-of-tree verification harness of property C04 (build tag verif).  Add-only.
+
+// VerifC04Backends returns the backend handles in list order.
+func (brr *BalanceRR) VerifC04Backends() []*backend.BfeBackend {
+	brr.Lock()
+	defer brr.Unlock()
+	out := make([]*backend.BfeBackend, 0, len(brr.backends))
+	for _, b := range brr.backends {
+		out = append(out, b.backend)
+	}
+	return out
+}
+
+// VerifC04SetRaw sets weight and current of the backend at list position i (no x100 scaling).
+func (brr *BalanceRR) VerifC04SetRaw(i int, weight int, current int) {
+	brr.Lock()
+	defer brr.Unlock()
+	brr.backends[i].weight = weight
+	brr.backends[i].current = current
+}
+
+// VerifC04SetWeight sets only weight of the backend at list position i.
+func (brr *BalanceRR) VerifC04SetWeight(i int, weight int) {
+	brr.Lock()
+	defer brr.Unlock()
+	brr.backends[i].weight = weight
+}
+
+// VerifC04Candidates runs leastConnsBalance and returns the list positions of the candidates
+// (ok=false when it reports an error).
+func (brr *BalanceRR) VerifC04Candidates() (idx []int, ok bool) {
+	brr.Lock()
+	defer brr.Unlock()
+	c, err := leastConnsBalance(brr.backends)
+	if err != nil {
+		return nil, false
+	}
+	for _, x := range c {
+		for i, b := range brr.backends {
+			if b == x {
+				idx = append(idx, i)
+			}
+		}
+	}
+	return idx, true
+}
